@@ -440,7 +440,11 @@ pub fn run_encoder(plain: &[u8], pre: &[u8], side: &Side, check_stream: bool) ->
     let mut seen = Seen::default();
 
     let mut encoder: Encoder<'_> = if pre.is_empty() {
-        Encoder::new()
+        if plain.len() % 2 == 1 {
+            Encoder::default()
+        } else {
+            Encoder::new()
+        }
     } else {
         let mut iovec = OwningIovec::new();
         iovec.push_copy(pre);
@@ -578,11 +582,25 @@ pub struct DecRun {
 /// Feeds `stream` to a Decoder as `side` describes.  Stops at the first
 /// error, as the decoder is done then.
 pub fn run_decoder(stream: &[u8], side: &Side, check_stream: bool) -> Result<DecRun, Fail> {
+    run_decoder_pre(stream, &[], side, check_stream)
+}
+
+/// As [`run_decoder`], with `pre` already in the iovec handed to `Decoder::new_from_iovec`
+/// (the decoded bytes must come after it; the prefix is checked and removed from the result).
+pub fn run_decoder_pre(stream: &[u8], pre: &[u8], side: &Side, check_stream: bool) -> Result<DecRun, Fail> {
     let cuts = bytespec::resolve_cuts(&side.cuts, stream.len(), &encoded_interesting(stream));
     let pieces = bytespec::split_at_cuts(stream, &cuts);
     let mut obs = Obs::default();
     let mut seen = Seen::default();
-    let mut decoder: Decoder<'_> = Decoder::new();
+    let mut decoder: Decoder<'_> = if !pre.is_empty() {
+        let mut iovec = OwningIovec::new();
+        iovec.push_copy(pre);
+        Decoder::new_from_iovec(iovec)
+    } else if stream.len() % 2 == 1 {
+        Decoder::default()
+    } else {
+        Decoder::new()
+    };
 
     let mut pos = 0usize;
     let mut piece_end = 0usize;
@@ -691,6 +709,10 @@ pub fn run_decoder(stream: &[u8], side: &Side, check_stream: bool) -> Result<Dec
             if seen.bytes.len() > output.len() || seen.bytes[..] != output[..seen.bytes.len()] {
                 return Err(Fail::new("decoder:not-prefix", "bytes observable before finish are not a prefix of the decoded output"));
             }
+            if output.len() < pre.len() || output[..pre.len()] != *pre {
+                return Err(Fail::new("decode:prefix-lost", "bytes already in the iovec handed to Decoder::new_from_iovec are not at the front of the output"));
+            }
+            output.drain(..pre.len());
             Ok(DecRun { result: Ok(output), obs })
         }
     }
